@@ -36,6 +36,12 @@ thread_local! {
 
 pub struct DynRoot;
 
+/// run `f` with `ty` as the type description `DynRoot` stands for (used by the schema suite)
+pub fn with_type<R>(ty: &Value, f: impl FnOnce() -> R) -> R {
+    CURRENT_TY.with(|t| *t.borrow_mut() = ty.clone());
+    f()
+}
+
 impl<'de> Deserialize<'de> for DynRoot {
     fn deserialize<D: Deserializer<'de>>(d: D) -> Result<Self, D::Error> {
         let ty = CURRENT_TY.with(|t| t.borrow().clone());
